@@ -140,3 +140,37 @@ pub fn check_mgu(case: &str) -> Result<(), String> {
         }
     }
 }
+
+/// C07: unifying A with B and B with A - same outcome, and every variable gets the same resolved value
+/// up to a consistent renaming of unbound variables.  Occurs-check pairs are skipped.
+pub fn enum_sym(seed: u64) -> Vec<String> {
+    let mut out = vec![];
+    for s in 0..2u64 { for c in enum_mgu(seed.wrapping_add(s * 104729)) { if !out.contains(&c) { out.push(c); } } }
+    out
+}
+pub fn check_sym(case: &str) -> Result<(), String> {
+    let ss = Rc::new(de_ss(field(case, "ss")));
+    let a = de(field(case, "a"));
+    let b = de(field(case, "b"));
+    let mut env = env_of(&ss);
+    if ref_unify(&norm(&a), &norm(&b), &mut env).is_err() { crate::skip(); return Ok(()); }
+    let r1 = a.unify(&b, &ss);
+    let r2 = b.unify(&a, &ss);
+    match (&r1, &r2) {
+        (None, None) => Ok(()),
+        (Some(_), None) => Err("A = B succeeds but B = A fails".into()),
+        (None, Some(_)) => Err("A = B fails but B = A succeeds".into()),
+        (Some(x), Some(y)) => {
+            let (e1, e2) = (env_of(x), env_of(y));
+            let (mut m, mut bk) = (HashMap::new(), HashMap::new());
+            for v in 1..6 {
+                let p = resolve(&T::V(v), &e1, 0);
+                let q = resolve(&T::V(v), &e2, 0);
+                if !same_up_to_renaming(&p, &q, &mut m, &mut bk) {
+                    return Err(format!("variable {} resolves to {:?} after A = B but to {:?} after B = A", v, p, q));
+                }
+            }
+            Ok(())
+        }
+    }
+}
